@@ -45,6 +45,7 @@ def runPts (d iter tol n : Nat) (ws : List Int) (coords : List Nat) : String :=
 def handle (toks : List String) : String :=
   match toks with
   | "rcb" :: d :: iter :: tol :: _threads :: n :: rest =>
+    if largeN n then skipLarge else
     match (do
       let d ← parseNat? d
       let iter ← parseNat? iter
@@ -56,6 +57,7 @@ def handle (toks : List String) : String :=
     | none => "bad-op"
     | some (d, iter, tol, n, ws, xs) => runPts d iter tol n ws xs
   | "rib" :: d :: iter :: tol :: _threads :: n :: rest =>
+    if largeN n then skipLarge else
     match (do
       let d ← parseNat? d
       let iter ← parseNat? iter
@@ -68,6 +70,7 @@ def handle (toks : List String) : String :=
     | none => "bad-op"
     | some (d, iter, tol, n, ws, rot) => runPts d iter tol n ws rot
   | "split" :: d :: coord :: tol :: mn :: mx :: n :: rest =>
+    if largeN n then skipLarge else
     match (do
       let d ← parseNat? d
       let coord ← parseNat? coord
